@@ -18,7 +18,7 @@ from typing import Any
 import z3
 
 from engine import symx
-from . import common
+from . import chrun, common
 
 SHARED, SWARM, OTHER = "/mnt/shared", "/mnt/swarm", "/mnt/elsewhere"
 PATHS = [SHARED, SWARM, OTHER]
@@ -470,3 +470,5 @@ def run(ctx: common.Context) -> None:
     ctx.bounds = {"pool_scope": "all 16 subsets", "sources": f"0..{_cfg['max_sources']}, each ':path' or 'net:path' with path in shared_pool/swarm_pool/other", "gateways/hosts": "uninterpreted atoms (equality with the own worker symbolic)", "presence": "local and per source symbolic", "cache_valid": "symbolic", "root": "4 operations x 5 scope settings x 2 object types, local/pool root and image comparison symbolic"}
     ctx.assumptions = ["transport (QCOW2ImageTransfer) and the local _show/_get/_set/_unset are logging stubs substituted through the class attributes", "closeness = (same gateway, same host, swarm_pool path), ties by list position"]
     ctx.coverage["explanation"] = "symbolic execution of the real pool backends: the real comparisons of gateways/hosts fork on atom equality, presence and cache validity are solver variables, all scope subsets enumerated; oracle = documented scope classification and closest-permitted-source rule"
+    if True:
+        chrun.run_crosshair(ctx, "ch_c13.py", per_condition_timeout=40)
